@@ -140,7 +140,10 @@ PROPS["C10"] = dict(
     technique="interruption enumeration driven by property-based generation: graceful StopPlot at every named point of both passes (hook H2), resume with other window sizes, judged against an independent reference table; abrupt crashes enumerated from a syscall trace",
     level_text="Generated configurations (key, bit length, window caps per run) are interrupted at generated named points of both passes, re-opened, judged (plotted => complete, progress covered by final data) and resumed to completion; non-termination of a resume is a deterministic verdict from non-advancing window events.",
     level_note="Trusted: mass-core pocutil; the reference construction; hook H2 placement for graceful stops (crash points do not rely on it: they come from the kernel-level trace).",
-    assumptions=["scale model bit lengths 8..14", "a graceful stop takes effect at the next stop check of the plotting loop (start of a scan or inside the cache write-out)"],
+    exhaustive=True, engine="rapid-harness+strace-crash-enum",
+    assumptions=["scale model bit lengths 8..14 (crash enumeration 8..12)", "a graceful stop takes effect at the next stop check of the plotting loop (start of a scan or inside the cache write-out)",
+                 "crash model: per file everything up to its last fsync is durable, later writes may be lost individually or torn in half; unlink is ordered after earlier fsyncs; creation of the space (header writes of CreateDB) is taken as durable",
+                 "exhaustive refers to the crash states of each generated configuration, not to the space of configurations"],
 )
 
 META = dict(
